@@ -367,14 +367,14 @@ def r8_lenses(ctx):
     if asg is not None:
         home = 10000
         table = {"mahf::lens::LensMut::get_mut": ok(Ref(home, [], frame="root"))}
-        it = install(Interp(asg.body, chain(mk_oracle(table), coll_oracle, std_oracle), [Sym("self"), Sym("new-value"), Sym("problem"), Sym("state")], facts=F, max_visits=6))
-        it.extra_env = {home: Sym("old-value")}
+        it = install(Interp(asg.body, chain(mk_oracle(table), coll_oracle, std_oracle), [Sym("self"), 2.5, Sym("problem"), Sym("state")], facts=F, max_visits=6))
+        it.extra_env = {home: 1.0}      # a plain value (a symbol would stand for the reference itself when it crosses into a closure)
         ps = it.run()
         n += 1
-        good = len(ps) == 1 and ps[0].end == "return" and isinstance(ps[0].ret, Agg) and ps[0].ret.variant == "Ok" and ps[0].env.get(home) == Sym("new-value")
+        good = len(ps) == 1 and ps[0].end == "return" and isinstance(ps[0].ret, Agg) and ps[0].ret.variant == "Ok" and ps[0].env.get(home) == 2.5
         ctx.check(good, "C10.R8", asg.key, "assign-stores-through-get_mut", "assign does not store the value into the target of get_mut: %s" % [(p.end, str(p.env.get(home))) for p in ps], loc=asg.loc())
         bad_err = []
-        it = install(Interp(asg.body, chain(mk_oracle({"mahf::lens::LensMut::get_mut": err(Sym("missing"))}), coll_oracle, std_oracle), [Sym("self"), Sym("new-value"), Sym("problem"), Sym("state")], facts=F, max_visits=6))
+        it = install(Interp(asg.body, chain(mk_oracle({"mahf::lens::LensMut::get_mut": err(Sym("missing"))}), coll_oracle, std_oracle), [Sym("self"), 2.5, Sym("problem"), Sym("state")], facts=F, max_visits=6))
         ends = {(p.end, p.ret.variant if isinstance(p.ret, Agg) else None) for p in it.run()}
         ctx.check(ends == {("return", "Err")}, "C10.R8", asg.key, "assign-reports-missing-target", "assign on a missing target yields %s" % sorted(map(str, ends)), loc=asg.loc())
     else:
